@@ -51,6 +51,13 @@ def builder_stubs(cx, engine):
         st.notes["peeked"] = None
         return S.mk_result(engine, is_err, Blob("name"), Opaque("Error", "from:symbol", {"kind": "callee"}))
 
+    def h_symscratch(engine, st, fr, callee, argv, m):
+        nm = seq(st, "symscratch")
+        is_err = z3.Bool(nm + "_err")
+        st.events.append(("symscratch", m.group(1), is_err))
+        st.notes["peeked"] = None
+        return S.mk_result(engine, is_err, Blob("name"), Opaque("Error", "from:symbol", {"kind": "callee"}))
+
     def h_name_token(engine, st, fr, callee, argv, m):
         # in the builders name_token is applied to a name that starts with a dot: not `nil` / `t`, so (c08_token_dispatch:
         # those tokens arise only from exactly these names) the result is a keyword or a symbol
@@ -103,6 +110,7 @@ def builder_stubs(cx, engine):
         (re.compile(P + r"parse_whitespace$"), h_ws),
         (re.compile(P + r"(expect_value|expect_datum)$"), h_expect),
         (re.compile(P + r"parse_symbol_suffix$"), h_symsuffix),
+        (re.compile(P + r"(parse_symbol_scratch_suffix|parse_symbol)$"), h_symscratch),
         (re.compile(P + r"name_token$"), h_name_token),
         (re.compile(P + r"eat_char$"), h_eat),
         (re.compile(P + r"peek_or_null$"), h_peek_or_null),
@@ -112,7 +120,7 @@ def builder_stubs(cx, engine):
         (re.compile(r"^<R as (?:parse::)?read::Read<'_>>::(position|peek_position)$"), h_position),
         (re.compile(r"^(Cons::|Value::|Vec::<|Option::<&mut|<Value as From|Box::<|(?:datum::)?Span::|(?:datum::)?Datum::|"
                     r"(?:datum::)?SpanInfo::|<\[SpanInfo; 2\] as Clone>|<.* as Clone>::clone|core::mem::|std::mem::|"
-                    r"<.* as Index|<.* as IndexMut|<.* as Deref)"), h_blob),
+                    r"<.* as Index|<.* as IndexMut|<.* as Deref|<String as Into<Box<str>>>::into|<&str as Into<Box<str>>>::into)"), h_blob),
     ]
 
 
@@ -280,6 +288,13 @@ def claim_list_protocol(cx, res, kf):
             if out == ("err", "EofWhileParsingList") and len(evs) == 2 and evs[1][0] == "error":
                 seen["eof"] += 1
                 res.must_be_unsat(pc + [z3.Not(z3.And(z3.Not(werr), z3.Not(wsome)))], "%s: EOF error without end of input" % fname)
+                continue
+            if "symscratch" in kinds:
+                from . import confirm as CF
+                v = {"what": "%s: a `.name` is scanned on top of whatever the scratch buffer still holds (the scan does not go through "
+                     "parse_symbol_suffix, which clears it): bytes of the previous token end up in the name" % fname, "replayed": None}
+                v.update(CF.confirm(("lists", "tokens"), res)(None))
+                res.violations.append(v)
                 continue
             la = next((e for e in evs[1:] if e[0] == "peek_or_null" or e[0].startswith("raw:")), None)
             if la is None and "symsuffix" in kinds:
@@ -507,12 +522,12 @@ CLAIMS = [
           "parse_list, parse_list_meta, parse_vector, parse_vector_meta and end_seq leave the depth counter unchanged on "
           "every path and call back into the parser only at the depth they were entered with (so nesting through list "
           "elements, dotted tails and vector elements is charged exactly once per level, by next_value/next_datum)",
-          "any number of elements (loop cut), arbitrary results of trivia skipping and of the nested parser", configs=("fast",)),
+          "any number of elements (loop cut), arbitrary results of trivia skipping and of the nested parser", configs=("fast",), also=("C16",)),
     Claim("c08_list_protocol", "C08", "quick", claim_list_protocol,
           "parse_list / parse_list_meta: a list ends only at its own closer (mismatch otherwise), `()` iff no element, "
           "a dotted tail needs a head element and a delimiter after the dot, trivia is skipped before the closer after "
           "the tail and that closer must be the list's own, `.name` reads a symbol",
-          "any number of elements (loop cut), both closers, arbitrary reader behaviour", configs=("fast",), also=("C12", "C13", "C19", "C01", "C02")),
+          "any number of elements (loop cut), both closers, arbitrary reader behaviour", configs=("fast",), also=("C12", "C13", "C19", "C01", "C02", "C11", "C17")),
     Claim("c08_vector_protocol", "C08", "quick", claim_vector_protocol,
           "parse_vector / parse_vector_meta: each step skips trivia first, a vector ends only at its own closer (mismatch "
           "otherwise), end of input is an EOF error, everything else is read as an element; end_seq skips trivia once, "
@@ -712,7 +727,7 @@ CLAIMS += [
           "for every remaining depth, trivia result, token kind and callee behaviour next_datum takes exactly the steps of "
           "next_value: same trivia skip, same token, same builder / byte-list / recursive call with the same closer and at "
           "the same depth, same end-of-sequence check, same error code, same Some/None outcome, same depth budget afterwards",
-          "all 13 token kinds, arbitrary callee results and depth", configs=("fast",), also=("C12",)),
+          "all 13 token kinds, arbitrary callee results and depth", configs=("fast",), also=("C12", "C19")),
 ]
 
 
